@@ -158,6 +158,14 @@ CLAIMS['C24'] = dict(
          'checked suppression, the reader adds-or-merges, updateSuppressionState merges both flags and the thread worker propagates state.',
     design='3/C24', note='Which suppressions should count as unmatched (the matching semantics) is not decided; field values containing the separator are data-dependent and not decided.')
 
+CLAIMS['C17'] = dict(
+    technique='static analysis: who-writes queries over the members of the reused analyzer objects plus a prologue / all-exits must-analysis for their resets, '
+              'effect analysis of static-storage variables over the call graph rooted at CppCheck::check, base-object analysis of every write to an option object',
+    text='Decides that every per-file data member of CppCheck::CppCheckLogger is reset in the straight-line prologue of CppCheck::checkInternal (or on every exit), that the '
+         'mutable members of CppCheck are the two documented whole-program accumulators, that code reachable from CppCheck::check modifies no static-storage variable other '
+         'than mutexes (one memo table is listed as undecided), and that every write to Settings/Platform/Standards/Library members in that code goes to a local copy.',
+    design='3/C17', note='Independence of the findings themselves for every input, and the shared Suppressions state (C23/C24), are not decided.')
+
 NOT_APPLICABLE = {
     'C01': 'soundness of inferred values vs. concrete executions of arbitrary programs; needs an executing/symbolic oracle, no structural necessary condition in valueflow.cpp',
     'C02': 'same as C01, for container sizes',
